@@ -215,6 +215,7 @@ func (rm *RequestManager) terminateRequest(requestID graphsync.RequestID, ipr *i
 		case <-rm.ctx.Done():
 		}
 	}
+	verifhook.Event("reqmgr.terminated", requestID)
 	rm.connManager.Unprotect(ipr.p, requestID.Tag())
 	if ipr.state == graphsync.Queued {
 		// the request never reached (or was put back on) a worker: take its task off the queue so
